@@ -98,6 +98,7 @@ G4d == { [fam |-> "G4", gets |-> TRUE, raw_tags |-> <<1004>>, payload |-> 0, sig
 \* digests of the right and of a wrong length, with and without the digest algorithm tag
 Hex64 == [i \in 1..64 |-> IF i % 2 = 0 THEN 97 ELSE 48]
 Hex32 == [i \in 1..32 |-> IF i % 2 = 0 THEN 98 ELSE 49]
+Hex64Upper == [i \in 1..64 |-> IF i % 2 = 0 THEN 65 ELSE 70]        \* "FAFA..." : rpm accepts upper-case hex digits
 FileTags(nf, v) ==
     << [tag |-> 1117, type |-> 8, v |-> [i \in 1..nf |-> <<102, 48 + i>>]],
        [tag |-> 1118, type |-> 8, v |-> << <<47, 111, 112, 116, 47>> >>],
@@ -115,12 +116,16 @@ FileTags(nf, v) ==
     \o (IF v.algo = 0 THEN <<>> ELSE << [tag |-> 5011, type |-> 4, v |-> << <<0, v.algo>> >>] >>)
 FileVariants == { [drop |-> d, bad |-> bd, sizes |-> sz, caps |-> c, algo |-> a, digest |-> dg]
                     : d \in {0, 1030, 1039, 1040, 1035, 1034, 1037, 1036}, bd \in {0, 1030, 1039, 1034}, sz \in {0, 32, 64},
-                      c \in BOOLEAN, a \in {0, 8, 99}, dg \in {Hex64, Hex32, <<>>} }
+                      c \in BOOLEAN, a \in {0, 8, 99}, dg \in {Hex64, Hex32, <<>>, Hex64Upper} }
 Relevant(v) == (v.drop = 0 \/ v.bad = 0) /\ (v.bad = 0 \/ (v.sizes = 32 /\ ~v.caps /\ v.algo = 8 /\ v.digest = Hex64))
                /\ (v.drop = 0 \/ (v.sizes = 32 /\ ~v.caps /\ v.algo = 8 /\ v.digest = Hex64))
 ImaSig(k) == IF k = 0 THEN <<>> ELSE << [tag |-> 274, type |-> 8, v |-> [i \in 1..k |-> <<48, 51, 48 + i>>]] >>
+\* the IMA signature tag present with another data type: the file list is then an error, not a list without signatures
+ImaWrong == << [tag |-> 274, type |-> 6, v |-> << <<48, 51>> >>] >>
 G4e == { [fam |-> "G4", gets |-> TRUE, raw_tags |-> <<>>, payload |-> 0, sig |-> [typed |-> ImaSig(IF v.caps THEN nf ELSE 0)],
           hdr |-> [typed |-> FileTags(nf, v)]] : nf \in {1, 2}, v \in {x \in FileVariants : Relevant(x)} }
+       \cup { [fam |-> "G4", gets |-> TRUE, raw_tags |-> <<>>, payload |-> 0, sig |-> [typed |-> ImaWrong],
+                hdr |-> [typed |-> FileTags(nf, [drop |-> 0, bad |-> 0, sizes |-> 32, caps |-> FALSE, algo |-> 8, digest |-> Hex64])]] : nf \in {1, 2} }
 
 \* headers with entries appended after the immutable region (rpm's "dribbles"): tags the accessors read,
 \* out of ascending order relative to the region's
